@@ -58,8 +58,9 @@ Emit == pc = "c_start" => PrintT(ToJson(sc))
 HTTPs(k) == IF k = "bidi" THEN {2} ELSE {1, 2}
 
 (* C01: message sequences: sizes around the thresholds, zeros anywhere, both directions, compression on/off *)
-\* (value lengths; the encoded size is two bytes more up to 127, three above: 97, 98, 99 straddle the threshold of 100)
-SzC01 == {0, 1, 511, 512, 513, 97, 98, 99}
+\* (value lengths; the encoded size is two bytes more up to 127, three above: 97, 98, 99 straddle the threshold of 100
+\*  and 508, 509, 510 the pool's seed capacity of 512 -- a seeded change showed 511..513 had been three bytes off)
+SzC01 == {0, 1, 508, 509, 510, 97, 98, 99}
 GenC01Init ==
   \E p \in Protos, k \in Kinds, codec \in {"proto", "json"}, cs \in {<<"none", <<>>>>, <<"gzip", <<>>>>, <<"rev", <<"rev">>>>},
      hp \in {<<>>, <<"rev">>}, mins \in {<<0, 0>>, <<100, 100>>} :
@@ -76,7 +77,14 @@ GenC01BigInit ==
       InitWith(Mk(p, k, "proto", http, cs, 0, <<>>, 0, <<>>,
                   IF k \in {"unary", "server"} THEN one(0) ELSE seq(0), <<>>, <<>>,
                   IF k \in {"unary", "client"} THEN one(100) ELSE seq(100), OK))
-GenC01Spec == (GenC01Init \/ GenC01BigInit) /\ [][FALSE]_vars
+\* every encoded size from 503 to 518 (envelope and prefix together straddle 512 as well), followed by a marker message
+GenC01EdgeInit ==
+  \E p \in Protos, k \in Kinds, cs \in {<<"none", <<>>>>, <<"gzip", <<>>>>}, v \in 500..515 :
+    \E http \in HTTPs(k) :
+      InitWith(Mk(p, k, "proto", http, cs, 0, <<>>, 0, <<>>,
+                  IF k \in {"unary", "server"} THEN <<M(1, v)>> ELSE <<M(1, v), M(2, 3)>>, <<>>, <<>>,
+                  IF k \in {"unary", "client"} THEN <<M(101, v)>> ELSE <<M(101, v), M(102, 3)>>, OK))
+GenC01Spec == (GenC01Init \/ GenC01BigInit \/ GenC01EdgeInit) /\ [][FALSE]_vars
 
 (* C02: errors: every code x message class x details x metadata x carrier (messages sent before) *)
 MsgClasses == {"empty", "ascii", "nonascii", "ctl", "pct", "crlf", "blanks", "long"}
